@@ -216,7 +216,8 @@ def _decl(t, inner, lang):
         return ("%s %s" % (t.spec(), inner)).rstrip()
     if isinstance(t, Record):
         if lang == "cxx":
-            return ("%s %s" % (t.name, inner)).rstrip()
+            # '::' avoids the injected-class-name of a privately inherited base
+            return ("::%s %s" % (t.name, inner)).rstrip()
         return ("%s %s" % (t.spec(), inner)).rstrip()
     if isinstance(t, Qualified):
         q = " ".join(w for w, on in (("const", t.const), ("volatile", t.volatile)) if on)
@@ -570,10 +571,23 @@ def render(prog):
                 # local by the version script, and is exported as name@NODE only
                 defname = f.name + "__v"
             defs.append("%s%s%s\n{\n%s\n}" % (st, a, fn_proto(f, lang, defname), _body(f, lang)))
-            for an, weak in f.aliases:
+            for an, weak in (f.aliases if lang == "c" else []):
                 defs.append("extern __typeof__(%s) %s __attribute__((alias(\"%s\")%s));" % (defname, an, defname, ", weak" if weak else ""))
             if f.version and not f.version[1]:
                 defs.append('__asm__(".symver %s,%s@%s");' % (defname, f.name, f.version[0]))
+        if lang == "cxx" and tu == 0:
+            for t in prog.types:
+                if not isinstance(t, Record) or t.opaque:
+                    continue
+                for f_ in t.fields:
+                    if f_.static:
+                        defs.append("%s;" % cdecl(f_.type, "%s::%s" % (t.name, f_.name), lang))
+                for m in t.methods:
+                    if m.inline:
+                        continue
+                    ps = ", ".join(cdecl(p_, n_, lang) for p_, n_ in zip(m.ftype.params, m.pnames))
+                    defs.append("%s\n{\n  %s\n}" % (cdecl(m.ftype.ret, "%s::%s(%s)" % (t.name, m.name, ps), lang),
+                                                     _ret_stmt(m.ftype.ret, lang)))
         # deterministic permutation of definitions (neutral edit "reorder definitions")
         if prog.order_seed:
             import random
@@ -677,7 +691,7 @@ class Gen(object):
                 return t
             return self.scalar()
         if x < 0.80 and self.o.arrays:
-            return Array(self.value_type(depth + 1), [r.randint(1, 5)] + ([r.randint(1, 3)] if r.random() < 0.3 else []))
+            return Array(self.value_type(depth + 1, allow_record), [r.randint(1, 5)] + ([r.randint(1, 3)] if r.random() < 0.3 else []))
         if x < 0.88 and self.o.enums:
             t = self.pick_named(Enum)
             return t or self.scalar()
@@ -796,7 +810,9 @@ class Gen(object):
             elif x < 0.35 and self.o.recursive:
                 fields.append(Field(self.name("m"), Pointer(rec) if rec.name else Pointer(Void())))
             else:
-                t = self.value_type(depth + 1)
+                # C++: a class with virtual functions / bases is not allowed inside a union or an anonymous aggregate
+                plain_only = self.o.lang == "cxx" and (depth > 0 or rec.kind == "union")
+                t = self.value_type(depth + 1, allow_record=not plain_only)
                 fields.append(Field(self.name("m"), t))
         # anonymous members must not have name clashes: names are globally unique already
         return fields
@@ -812,7 +828,12 @@ class Gen(object):
             rec._building = False
             return rec
         rec.fields = self.gen_fields(rec)
-        if self.o.flex_array and kind == "struct" and r.random() < 0.06 and len(rec.fields) >= 1 and not any(
+        if self.o.lang == "cxx" and self.o.cxx_classes:
+            rec._building = False
+            self.cxx_decorate_record(rec)
+            rec._building = True
+            kind = rec.kind
+        if self.o.flex_array and self.o.lang == "c" and kind == "struct" and r.random() < 0.06 and len(rec.fields) >= 1 and not any(
                 isinstance(f.type, Record) and f.type.name is None for f in rec.fields[-1:]):
             rec.fields.append(Field(self.name("m"), Array(self.scalar(), [None])))
             rec.flex = True
@@ -825,8 +846,57 @@ class Gen(object):
         rec._building = False
         return rec
 
+    # ---- C++ only
+    def cxx_decorate_record(self, rec):
+        """bases, methods, access specifiers, static data member"""
+        r = self.r
+        if rec.kind == "union" or rec.opaque:
+            return
+        if r.random() < 0.35:
+            rec.kind = "class"
+        # access specifiers on data members
+        acc = "public"
+        for f in rec.fields:
+            if r.random() < 0.25:
+                acc = r.choice(["public", "protected", "private"])
+            f.access = acc
+        # bases: earlier complete non-union records
+        cands = [t for t in self.p.types if isinstance(t, Record) and t is not rec and not t.opaque and t.kind != "union"
+                 and not getattr(t, "flex", False) and not getattr(t, "_building", False) and t.name]
+        if cands and r.random() < 0.4:
+            nb = 1 if r.random() < 0.7 else 2
+            for b in r.sample(cands, min(nb, len(cands))):
+                if any(b is x[0] for x in rec.bases):
+                    continue
+                rec.bases.append((b, r.choice(["public", "public", "protected", "private"]), r.random() < 0.25))
+        # member functions
+        for k in range(r.choice([0, 0, 1, 2, 3])):
+            ft = self.func_type(1, small=True)
+            ft.params = [self._fix_byvalue(p) for p in ft.params]
+            ft.ret = self._fix_byvalue(ft.ret, ret=True)
+            ft.variadic = False
+            rec.methods.append(Method(self.name("mf"), ft, [self.name("p") for _ in ft.params], virtual=r.random() < 0.4,
+                                      access=r.choice(["public", "public", "protected", "private"]), static=False, inline=False))
+        if rec.methods and any(m.virtual for m in rec.methods):
+            pass
+        if r.random() < 0.12:
+            rec.fields.append(Field(self.name("sm"), Builtin(r.choice(["int", "long", "char"])), access="public", static=True))
+        if getattr(rec, "flex", False) and (rec.bases or any(f.static for f in rec.fields)):
+            # keep the flexible array last
+            fl = [f for f in rec.fields if isinstance(f.type, Array) and None in f.type.dims]
+            for f in fl:
+                rec.fields.remove(f)
+                rec.fields.append(f)
+
     def gen_function(self):
         ft = self.func_type(0)
+        if self.o.lang == "cxx":
+            # some parameters / returns become references
+            for k, p_ in enumerate(ft.params):
+                if isinstance(p_, Pointer) and not isinstance(p_.to, (Void, FuncType)) and not (isinstance(p_.to, Qualified) and isinstance(p_.to.to, Void)) \
+                        and self.r.random() < 0.3:
+                    ft.params[k] = Reference(p_.to)
+            ft.variadic = ft.variadic and self.r.random() < 0.5
         # by-value parameters / returns must be complete and not flexible
         ft.params = [self._fix_byvalue(p) for p in ft.params]
         ft.ret = self._fix_byvalue(ft.ret, ret=True)
@@ -941,3 +1011,8 @@ def generate(rng, opts=None, nonce=None):
     nonce = nonce or "%04x" % rng.randrange(16 ** 4)
     g = Gen(rng, opts, nonce)
     return g.run()
+
+
+import os as _os
+if _os.environ.get("VERIF_CXX", "0") == "1":     # C++ side of the generator (switched on per default once soaked)
+    CXX_READY = True
